@@ -45,7 +45,16 @@ def run_property(pid: str, tier: str, root=None, overlay=None, quiet=False, fini
     repo = Repo(root, overlay=overlay)
     ctx = Ctx(repo, report, tier)
     report.extra["modules"] = repo.digests(getattr(mod, "MODULES", None))
-    mod.run(ctx)
+    try:
+        mod.run(ctx)
+    except AnalysisError as e:
+        # A rule that could not be evaluated gives no verdict for itself, but violations that other rules have already
+        # decided stand: report them (exit 1) instead of hiding them behind the analysis error.
+        if finish and report.new_findings():
+            report.notes.append("analysis incomplete: %s" % e)
+            report.extra["incomplete"] = str(e)
+            return report.finish(partial=True)
+        raise
     if tier == "thorough" and hasattr(mod, "thorough"):
         mod.thorough(ctx)
     if not finish:
